@@ -54,6 +54,8 @@ pub enum Op {
     Rewind { back: u32 },
     /// scan the blocks that the `gap` start state left out
     FillGap,
+    /// put_received_transparent_utxo for a coin the wallet was not told about in the start state
+    PutUtxo { i: usize },
     /// a proposal with `lock_inputs: Some(..)` (writes locks)
     Propose { req: Req },
 }
@@ -76,6 +78,10 @@ pub struct UtxoView {
     pub known: bool,
     /// mined (as far as the wallet was told and no rewind went below it)
     pub mined: Option<u32>,
+    /// spent by a pending transaction mined in a scanned block of the current chain
+    pub spent_on_chain: bool,
+    /// spent by a stored pending transaction that is not mined (in scanned blocks) and not expired
+    pub pending_spent: bool,
     pub lock: Option<(u8, u32)>,
 }
 
@@ -105,7 +111,7 @@ impl Model {
         let (_, _, gap, tip) = &env.starts[i];
         let mut m = Model { chain: ChainDesc { base_upto: uni::T0, dynb: vec![] }, tip: *tip, gap: *gap, seen: BTreeSet::new(), locks: BTreeMap::new(), stored: BTreeSet::new(), utxo_unmined: BTreeSet::new() };
         for (i, t) in env.utxos.iter().enumerate() {
-            if t.height <= *tip {
+            if t.height <= *tip && !t.late {
                 m.seen.insert(NoteKey::T(i));
             }
         }
@@ -225,7 +231,19 @@ impl Model {
             .map(|(i, t)| {
                 let key = NoteKey::T(i);
                 let known = self.seen.contains(&key);
-                UtxoView { key, owner: t.owner, value: t.value, hash: t.hash, known, mined: (known && !self.utxo_unmined.contains(&i) && t.height <= self.tip).then_some(t.height), lock: self.locks.get(&key).copied() }
+                let spent_on_chain = env.pend.iter().enumerate().any(|(p, pd)| pd.utxo_spends.contains(&i) && self.chain.mined_at(p).is_some_and(|h| self.scanned(h)));
+                let pending_spent = !spent_on_chain && env.pend.iter().enumerate().any(|(p, pd)| pd.utxo_spends.contains(&i) && self.pending_active(env, p));
+                UtxoView {
+                    key,
+                    owner: t.owner,
+                    value: t.value,
+                    hash: t.hash,
+                    known,
+                    mined: (known && !self.utxo_unmined.contains(&i) && t.height <= self.tip).then_some(t.height),
+                    spent_on_chain,
+                    pending_spent,
+                    lock: self.locks.get(&key).copied(),
+                }
             })
             .collect()
     }
@@ -252,6 +270,8 @@ pub struct Alphabet {
     pub proposals: Vec<Req>,
     pub clear_b: bool,
     pub unlock_all: bool,
+    /// offer Mine for the pending transaction that spends a transparent coin
+    pub mine_transparent_pending: bool,
 }
 
 pub fn enabled(env: &Env, al: &Alphabet, m: &Model) -> Vec<Op> {
@@ -275,17 +295,27 @@ pub fn enabled(env: &Env, al: &Alphabet, m: &Model) -> Vec<Op> {
     }
     let ledger = m.ledger(env);
     let view = |i: usize| ledger.iter().find(|v| v.key == NoteKey::U(i)).unwrap();
+    let coins = m.utxo_views(env);
     for (p, pd) in env.pend.iter().enumerate() {
         let t = m.target();
+        // shielded inputs must be known, mined and unspent; a transparent input only has to be
+        // unspent on chain and in existence (the wallet may not have been told about the coin yet:
+        // a transaction made by another device sharing the seed)
         let inputs_live = pd.spends.iter().all(|i| {
             let v = view(*i);
             v.mined.is_some() && !v.spent_on_chain
-        });
-        if !m.stored.contains(&p) && pd.build_target <= t && t <= pd.expiry && inputs_live && pd.spends.iter().all(|i| !view(*i).pending_spent) {
+        }) && pd.utxo_spends.iter().all(|i| !coins[*i].spent_on_chain && env.utxos[*i].height <= m.tip);
+        if !m.stored.contains(&p) && pd.build_target <= t && t <= pd.expiry && inputs_live && pd.spends.iter().all(|i| !view(*i).pending_spent) && pd.utxo_spends.iter().all(|i| !coins[*i].pending_spent) {
             ops.push(Op::Store { p });
         }
-        if m.stored.contains(&p) && m.chain.mined_at(p).is_none() && t <= pd.expiry && inputs_live && m.gap.is_none() {
+        if m.stored.contains(&p) && m.chain.mined_at(p).is_none() && t <= pd.expiry && inputs_live && m.gap.is_none() && (pd.utxo_spends.is_empty() || al.mine_transparent_pending) {
             ops.push(Op::Mine { p });
+        }
+    }
+    for (i, t) in env.utxos.iter().enumerate() {
+        // the address-UTXO query reports a coin only while it is unspent on chain
+        if t.late && !m.seen.contains(&NoteKey::T(i)) && t.height <= m.tip && !coins[i].spent_on_chain {
+            ops.push(Op::PutUtxo { i });
         }
     }
     for k in &al.advance {
@@ -434,6 +464,16 @@ pub fn apply(env: &Env, w: &mut Wallet, m: &Model, op: &Op) -> Result<Step, Stri
                     outs.push("store:unlocked-spent-input".into());
                 }
             }
+            for i in &env.pend[*p].utxo_spends {
+                if m.seen.contains(&NoteKey::T(*i)) {
+                    outs.push("store:spends-known-coin".into());
+                    if n.locks.remove(&NoteKey::T(*i)).is_some() {
+                        outs.push("store:unlocked-spent-input".into());
+                    }
+                } else {
+                    outs.push("store:spends-coin-not-yet-known".into());
+                }
+            }
             for o in env.pend[*p].outs.iter().filter(|o| o.owner == Owner::A) {
                 n.seen.insert(NoteKey::D(*p, o.index));
             }
@@ -490,6 +530,13 @@ pub fn apply(env: &Env, w: &mut Wallet, m: &Model, op: &Op) -> Result<Step, Stri
                     outs.push(if r == h { "rewind:exact".into() } else { "rewind:lower".into() });
                 }
             }
+        }
+        Op::PutUtxo { i } => {
+            env.put_utxo(w, *i)?;
+            n.seen.insert(NoteKey::T(*i));
+            n.utxo_unmined.remove(i);
+            let spender_stored = env.pend.iter().enumerate().any(|(p, pd)| pd.utxo_spends.contains(i) && m.stored.contains(&p));
+            outs.push(if spender_stored { "pututxo:spender-stored-before-coin" } else { "pututxo:coin-first" }.into());
         }
         Op::FillGap => {
             let (a, b) = m.gap.expect("FillGap is enabled only while the gap is open");
